@@ -51,6 +51,7 @@ type Harness struct {
 	Solver   string
 	Expect   []string // tags that must be reached
 	QTimeout [2]int   // per-query seconds
+	Conc     bool
 }
 
 func parseHarnessFile(path, pkgDir string) ([]*Harness, error) {
@@ -104,6 +105,8 @@ func parseHarnessFile(path, pkgDir string) ([]*Harness, error) {
 				two(&h.QTimeout)
 			case "tier":
 				h.Tier = fs[1]
+			case "conc":
+				h.Conc = true // a thread template (cmd/verif/conc.go), not a harness of its own
 			case "havoc":
 				h.Havoc = append(h.Havoc, fs[1:]...)
 			case "runinit":
@@ -116,7 +119,7 @@ func parseHarnessFile(path, pkgDir string) ([]*Harness, error) {
 				h.Expect = append(h.Expect, fs[1:]...)
 			}
 		}
-		if len(h.Property) > 0 {
+		if len(h.Property) > 0 || h.Conc {
 			out = append(out, h)
 		}
 	}
@@ -563,7 +566,8 @@ func cmdCheck(args []string) int {
 			}
 		}
 	}
-	if len(only) == 0 {
+	concSp, concDir := findConcSpec(prop)
+	if len(only) == 0 && concSp == nil {
 		fmt.Printf("no harness for property %s\n", prop)
 		return 2
 	}
@@ -576,6 +580,16 @@ func cmdCheck(args []string) int {
 	if err != nil {
 		fmt.Println(err)
 		return 2
+	}
+	if concSp != nil {
+		for f, e := range ld.skipped {
+			if filepath.Base(filepath.Dir(f)) == concDir {
+				fmt.Printf("HARNESS-SKIPPED %s: %s\n", f, e)
+				fmt.Println("CHECK-ERROR harness does not compile against the current tree:", e)
+				return 2
+			}
+		}
+		return runConc(ld, concSp, concDir, tier, known, *verbose)
 	}
 	var hs []*Harness
 	for _, h := range ld.harness {
